@@ -228,15 +228,65 @@ func (eng *Engine) discharge(vc *VC, workDir string, timeoutMs int, thorough boo
 			secs   float64
 		}
 		ch := make(chan ans, len(idxs))
+		// query texts are rendered sequentially (the VC is not safe for concurrent use)
+		lights := map[int]string{}
+		singles := map[int]string{}
+		paths := map[int][]string{}
+		lightPaths := map[int][]string{}
+		for _, i := range idxs {
+			lights[i] = vc.smtLight(i)
+			singles[i] = vc.smtSingle(i)
+			for k := range vc.obls[i].Paths {
+				paths[i] = append(paths[i], vc.smtPath(i, k))
+				lightPaths[i] = append(lightPaths[i], vc.smtLightPath(i, k))
+			}
+		}
 		for _, i := range idxs {
 			go func(i int) {
 				solverSlots <- struct{}{}
 				defer func() { <-solverSlots }()
 				start := time.Now()
 				qf := fmt.Sprintf("%s.obl%d.smt2", base, i)
-				os.WriteFile(qf, []byte(vc.smtSingle(i)), 0o644)
 				defer os.Remove(qf)
+				// light attempt: quantified hypotheses dropped (only "unsat" is meaningful)
+				if o := vc.obls[i]; !strings.Contains(o.Cond, "(forall") && !strings.Contains(o.Cond, "(exists") {
+					os.WriteFile(qf, []byte(lights[i]), 0o644)
+					argv := solvers[0].argv(qf, 1500)
+					out, _ := exec.Command(argv[0], argv[1:]...).CombinedOutput()
+					if strings.HasPrefix(strings.TrimSpace(string(out)), "unsat") {
+						ch <- ans{i, "unsat", solvers[0].name + "/light", time.Since(start).Seconds()}
+						return
+					}
+				}
+				os.WriteFile(qf, []byte(singles[i]), 0o644)
 				st, by := raceSolvers(qf, timeoutMs)
+				if st != "unsat" && st != "sat" && len(paths[i]) > 0 {
+					// case split over the covering paths: discharged iff every path is
+					all := true
+					quantGoal := strings.Contains(vc.obls[i].Cond, "(forall") || strings.Contains(vc.obls[i].Cond, "(exists")
+					for pk, ptxt := range paths[i] {
+						if !quantGoal {
+							os.WriteFile(qf, []byte(lightPaths[i][pk]), 0o644)
+							argv := solvers[0].argv(qf, 1500)
+							out, _ := exec.Command(argv[0], argv[1:]...).CombinedOutput()
+							if strings.HasPrefix(strings.TrimSpace(string(out)), "unsat") {
+								continue
+							}
+						}
+						os.WriteFile(qf, []byte(ptxt), 0o644)
+						pst, _ := raceSolvers(qf, timeoutMs)
+						if pst != "unsat" {
+							all = false
+							if os.Getenv("GVC_DEBUG") != "" {
+								fmt.Fprintf(os.Stderr, "path-split: %s fails on path %d/%d: %s\n   %s\n", vc.obls[i].Name, pk+1, len(paths[i]), pst, vc.obls[i].Paths[pk])
+							}
+							break
+						}
+					}
+					if all {
+						st, by = "unsat", "split/"+fmt.Sprint(len(paths[i]))+"paths"
+					}
+				}
 				ch <- ans{i, st, by, time.Since(start).Seconds()}
 			}(i)
 		}
